@@ -57,13 +57,15 @@ def scenarios(flavour, n_nodes, max_edges, provenance=False):
         for (op, u, v) in op_instances(seq, n_nodes):
             hkinds = ['orig']
             if provenance:
-                hkinds = ['clone']
+                hkinds = ['clone', ['graph', u]]
                 # an edge-endpoint / lookup handle for u exists when some edge mentions u
                 for j, (a, b) in enumerate(seq):
                     if b == u:
                         idx = sum(1 for (a2, b2) in seq[:j] if a2 == a)
                         hkinds.append(['out' if directed else 'adj', a, idx])
                         hkinds.append(['find_out' if directed else 'find_adj', a, u])
+                        if a != u:
+                            hkinds.append(['found', a, u])
                         break
                 for j, (a, b) in enumerate(seq):
                     if a == u and directed:
@@ -84,8 +86,11 @@ def scenarios(flavour, n_nodes, max_edges, provenance=False):
                     step = ['disconnect', hu, v]
                 else:
                     step = [op, hu, v if not provenance else ['clone', v], {'s': 'enew'}]
+                gsteps = []
+                if isinstance(hk, list) and hk[0] == 'graph':
+                    gsteps = [['g_new']] + [['g_insert', i] for i in range(n_nodes)]
                 scen = {'flavour': flavour, 'nodes': [[i, 100 + i] for i in range(n_nodes)],
-                        'steps': pre + [['dump'], step, ['dump']],
+                        'steps': pre + gsteps + [['dump'], step, ['dump']],
                         'meta': {'op': op, 'u': u, 'v': v, 'seq': seq,
                                  'handle': hk if isinstance(hk, str) else hk[0]}}
                 yield (flavour, op), scen
